@@ -21,6 +21,14 @@ def families():
                                                         DS.merge([DS.cross(["e", "d"], ["e"], [ct]), DS.cross(["g"], ["g"])])]))
         out.append((f"{tag}:three-blocks", facs, [DS.cross(["c", "d"], ["c"], [ct]), DS.cross(["e", "d"], ["e"], [ct]),
                                                    DS.repeat(DS.cross(["g", "d"], ["g"], [ct]), [["MinimumTrials", 4]])]))
+        # Merge / Nest called the way the documentation shows them, without a constraints argument, after a combinator whose members carry
+        # the constraint: every later call must still mean "no constraints"
+        out.append((f"{tag}:merge-then-plain-merge", facs, [DS.merge([DS.cross(["e", "d"], ["e"], [ct]), DS.cross(["g"], ["g"])]),
+                                                             DS.merge([DS.cross(["c", "d"], ["c"]), DS.cross(["g"], ["g"])])]))
+        out.append((f"{tag}:nest-then-plain-nest", facs, [DS.nest(DS.cross(["c"], ["c"]), DS.cross(["g", "d"], ["g"], [ct])),
+                                                           DS.nest(DS.cross(["g"], ["g"]), DS.cross(["c", "d"], ["c"]))]))
+        out.append((f"{tag}:merge-with-list-then-cross", facs, [DS.merge([DS.cross(["e", "d"], ["e"], [ct]), DS.cross(["g"], ["g"])], [["MinimumTrials", 4]]),
+                                                                 DS.repeat(DS.cross(["c", "d"], ["c"]), [["MinimumTrials", 4]])]))
     # factors only (no shared constraint): weighted / derived factors reused
     tr = DS.transition_rep("t", "c", DS.A2)
     wd = DS.fac("d", [["x", 2], ["y", 1]])
@@ -29,44 +37,55 @@ def families():
     return out
 
 
-def _eval(arg):
-    name, facs, blocks, order = arg
+def _facts(block, d):
     import sweetpea as sp
-    out = {"name": name, "order": list(order)}
+    names = SC.user_factors(d)
+    res = runner.synth(block, 4000, "IterateSATGen")
+    keys = sorted(set(SC.key_of_exp(e, names) for e in res))
+    # mismatch verdicts on the solutions and on single-trial perturbations of the first few
+    verdicts = []
+    probes = [dict(e) for e in res[:6]]
+    for e in res[:3]:
+        for f in names:
+            for t in range(len(e[f])):
+                e2 = {k: list(v) for k, v in e.items()}
+                others = [x for x in set(e[f]) if x != e[f][t] and x != ""]
+                if others and e[f][t] != "":
+                    e2[f][t] = sorted(others)[0]
+                    probes.append(e2)
+    for e in probes[:40]:
+        try:
+            verdicts.append(sorted(runner.quiet(sp.sample_mismatch_experiment, block, e).keys()))
+        except Exception as ex:
+            verdicts.append(["EXC:" + type(ex).__name__])
+    return dict(T=block.trials_per_sample(), keys=keys, probes=[SC.key_of_exp(e, names) for e in probes[:40]], verdicts=verdicts)
 
-    def facts(block, d):
-        names = SC.user_factors(d)
-        res = runner.synth(block, 4000, "IterateSATGen")
-        keys = sorted(set(SC.key_of_exp(e, names) for e in res))
-        # mismatch verdicts on the solutions and on single-trial perturbations of the first few
-        verdicts = []
-        probes = [dict(e) for e in res[:6]]
-        for e in res[:3]:
-            for f in names:
-                for t in range(len(e[f])):
-                    e2 = {k: list(v) for k, v in e.items()}
-                    others = [x for x in set(e[f]) if x != e[f][t] and x != ""]
-                    if others and e[f][t] != "":
-                        e2[f][t] = sorted(others)[0]
-                        probes.append(e2)
-        for e in probes[:40]:
-            try:
-                verdicts.append(sorted(runner.quiet(sp.sample_mismatch_experiment, block, e).keys()))
-            except Exception as ex:
-                verdicts.append(["EXC:" + type(ex).__name__])
-        return dict(T=block.trials_per_sample(), keys=keys, probes=[SC.key_of_exp(e, names) for e in probes[:40]], verdicts=verdicts)
+
+def _fresh(arg):
+    """facts of ONE block built from fresh, unshared objects in a process of its own (nothing built before it)"""
+    name, facs, blocks, i = arg
+    d = DS.D(f"{name}#{i}", facs, blocks[i])
+    try:
+        block, objs = model.build(d)
+        out = _facts(block, d)
+        out["frame"] = objs.get("frame", [])
+        return out
+    except Exception as e:
+        import traceback
+        return {"exception": [type(e).__name__, str(e)[:300], traceback.format_exc()[-1500:]]}
+
+
+def _eval(arg):
+    name, facs, blocks, order, fresh = arg
+    out = {"name": name, "order": list(order)}
     descs = [DS.D(f"{name}#{i}", facs, b) for i, b in enumerate(blocks)]
     try:
-        fresh = {}
-        for i, d in enumerate(descs):
-            block, _ = model.build(d)
-            fresh[i] = facts(block, d)
-        objs = {"factors": {}, "constraints": {}, "share_constraints_by_value": True}
+        objs = {"factors": {}, "constraints": {}, "share_constraints_by_value": True, "share_lists": True}
         built = {}
         for i in order:
             built[i], _ = model.build(descs[i], shared=objs)
-        shared = {i: facts(built[i], descs[i]) for i in order}
-        # verdicts must be compared on the same probe sequences: re-evaluate fresh probes on the shared block
+        out["frame"] = objs.get("frame", [])
+        shared = {i: _facts(built[i], descs[i]) for i in order}
         diffs = []
         for i in order:
             a, b = fresh[i], shared[i]
@@ -75,6 +94,7 @@ def _eval(arg):
                                   example=(dict(sorted(set(a["keys"]) ^ set(b["keys"]))[0]) if set(a["keys"]) ^ set(b["keys"]) else None)))
             else:
                 import sweetpea as sp2
+                # verdicts are compared on the same probe sequences: the fresh block's probes re-evaluated on the shared block
                 for k, want in zip(a["probes"], a["verdicts"]):
                     got = sorted(runner.quiet(sp2.sample_mismatch_experiment, built[i], {f: list(v) for f, v in k}).keys())
                     if got != want:
@@ -91,13 +111,30 @@ def main(tier):
     ck = Check("C18", tier, "exploration",
                "Histories of block constructions that share factor and constraint objects: for each family of 2-3 blocks (CrossBlock, Repeat, Merge, Nest) and "
                "every construction order, each block built from the shared objects must have the same trial count, the same exhausted IterateSATGen solution "
-               "set and the same sample_mismatch_experiment verdicts (on its solutions and single-trial perturbations) as when built from fresh objects.")
+               "set and the same sample_mismatch_experiment verdicts (on its solutions and single-trial perturbations) as when built from fresh objects in a "
+               "process of its own. Shared are factor objects, constraint objects and the constraint lists themselves; Merge/Nest are called without a constraints "
+               "argument where there is none. The constructors' frame condition (caller's lists and default argument values untouched) is monitored and attached "
+               "to any violation as the mechanism.")
     fams = families()
+    # stage 1: every block of every family from fresh objects, each in a process of its own
+    fargs = [(name, facs, blocks, i) for name, facs, blocks in fams for i in range(len(blocks))]
+    fres = runner.pmap(_fresh, fargs, jobs=14, timeout=90)
+    fresh = {}
+    for (name, facs, blocks, i), (st, r) in zip(fargs, fres):
+        fresh[(name, i)] = r if st == "ok" and "exception" not in r else None
+        if st == "ok" and r.get("frame"):
+            ck.extra.setdefault("frame_notes", []).append([name, i, r["frame"][:3]])
+    # stage 2: every construction order with shared factor objects, constraint objects and constraint lists
     args = []
     for name, facs, blocks in fams:
+        fr = {i: fresh[(name, i)] for i in range(len(blocks))}
+        if any(v is None for v in fr.values()):
+            ck.oblig(f"C18.fresh({name})", "E", "undecided", detail="a block of this family could not be built / enumerated from fresh objects")
+            continue
         for order in itertools.permutations(range(len(blocks))):
-            args.append((name, facs, blocks, order))
+            args.append((name, facs, blocks, order, fr))
     res = runner.pmap(_eval, args, jobs=14, timeout=90)
+    args = [a[:4] for a in args]
     for (name, facs, blocks, order), (st, r) in zip(args, res):
         oid = f"C18.order({name},{''.join(map(str, order))})"
         if st != "ok":
@@ -114,8 +151,10 @@ def main(tier):
             dfr = r["diffs"][0]
             ck.violation("C18.order", f"{name}:order={''.join(map(str, order))}:block={dfr['block']}:{dfr['kind']}",
                          f"family {name}, construction order {list(order)}: block #{dfr['block']} differs from its fresh build ({dfr['kind']}): {str(dfr)[:300]}",
-                         dict(replay_kind="family", family=name, factors=facs, blocks=blocks, order=list(order), diff=dfr),
+                         dict(replay_kind="family", family=name, factors=facs, blocks=blocks, order=list(order), diff=dfr, frame_breaches=r.get("frame", [])[:4]),
                          tags=dict(kind=dfr["kind"], family=name.split(":")[1] if ":" in name else name, constraint=name.split(":")[0], first_block=order[0]))
+        if r.get("frame"):
+            ck.extra.setdefault("frame_notes", []).append([name, list(order), r["frame"][:3]])
         ck.sample(dict(family=name, order=list(order), blocks=len(blocks)))
     ck.rule = "one case per (family, construction order); families: a constraint object of each window-scoped class shared between blocks of different geometry, shared transition / weighted factors"
     ck.trust("CPython", "pycryptosat")
